@@ -21,6 +21,14 @@ FIXED = [
      [('r1', [2, 1]), ('r2', [3, 1]), ('r3', [7, 2]), ('r4', [1, 1]), ('r5', [7, 1])]),
     ('oo_two_supers', 'class A { real a; A(real a) : a(a) {} }\nclass B { real b = 4.0; B() {} B(real b) : b(b) {} }\nclass C : A, B { real c; C(real x) : A(x), B(x + 1.0), c(x + 2.0) {} }\nC o = new C(1.0);\nreal r1; r1 == o.a;\nreal r2; r2 == o.b;\nreal r3; r3 == o.c;\n',
      [('r1', [1, 1]), ('r2', [2, 1]), ('r3', [3, 1])]),
+    # a field of the second / third supertype reached through an object VARIABLE (several candidates): the constraint on the
+    # field decides which instance the variable denotes, the field of the chosen instance is read back
+    ('oo_var_second_super', 'class Named { real id; Named(real id) : id(id) {} }\nclass Located { real zone; Located(real zone) : zone(zone) {} }\nclass Robot : Named, Located { Robot(real id, real zone) : Named(id), Located(zone) {} }\nRobot ra = new Robot(1.0, 10.0);\nRobot rb = new Robot(2.0, 20.0);\nRobot r;\nr.zone <= 15.0;\nreal r1; r1 == r.zone;\nreal r2; r2 == r.id;\n',
+     [('r1', [10, 1]), ('r2', [1, 1])]),
+    ('oo_var_third_super', 'class N { real id; N(real id) : id(id) {} }\nclass L { real zone; L(real zone) : zone(zone) {} }\nclass W { real load; W(real load) : load(load) {} }\nclass Robot : N, L, W { Robot(real id, real zone, real load) : N(id), L(zone), W(load) {} }\nRobot ra = new Robot(1.0, 10.0, 7.0);\nRobot rb = new Robot(2.0, 20.0, 3.0);\nRobot rc = new Robot(3.0, 30.0, 5.0);\nRobot r;\nr.load <= 4.0;\nreal r1; r1 == r.load;\nreal r2; r2 == r.zone;\nreal r3; r3 == r.id;\n',
+     [('r1', [3, 1]), ('r2', [20, 1]), ('r3', [2, 1])]),
+    ('oo_var_super_of_super', 'class Base { real k; Base(real k) : k(k) {} }\nclass Side { real s; Side(real s) : s(s) {} }\nclass Mid : Side, Base { Mid(real s, real k) : Side(s), Base(k) {} }\nclass Leaf : Mid { Leaf(real s, real k) : Mid(s, k) {} }\nLeaf la = new Leaf(1.0, 10.0);\nLeaf lb = new Leaf(2.0, 20.0);\nLeaf l;\nl.k >= 15.0;\nreal r1; r1 == l.k;\nreal r2; r2 == l.s;\n',
+     [('r1', [20, 1]), ('r2', [2, 1])]),
 ]
 
 
